@@ -447,6 +447,10 @@ class OpGen:
                 items.append("__typename")
             else:
                 return None
+        if len(items) >= 2 and d.bool(0.4):
+            # fields, inline fragments and spreads interleaved in a drawn order (by default fragments come last)
+            items = d.shuffle(items)
+            d.tag("sel.interleaved_order")
         return "{ " + " ".join(items) + " }"
 
     # ------------------------------------------------------------ definitions
@@ -648,6 +652,9 @@ def _val(d, desc, t, depth, ctx, nullable):
         d.tag(f"{ctx}.custom_scalar")
         kind = getattr(desc, "scalar_kinds", {}).get(name)
         if kind == "money":
+            if d.bool(0.15):
+                d.tag(f"{ctx}.falsy_custom_scalar")
+                return {"$money": 0}  # a FALSY value of the scalar's Python type (the empty string)
             desc.money_counter = getattr(desc, "money_counter", 0) + 1
             return {"$money": desc.money_counter}
         if kind == "datetime":
@@ -687,7 +694,7 @@ def spec_to_json(spec):
     if isinstance(spec, dict) and "$e" in spec:
         return spec["$e"][1]
     if isinstance(spec, dict) and "$money" in spec:
-        return f"m#{spec['$money']}"
+        return f"m#{spec['$money']}" if spec["$money"] else ""
     if isinstance(spec, dict) and "$dt" in spec:
         return spec["$dt"]
     if isinstance(spec, dict) and "$i" in spec:
